@@ -144,12 +144,26 @@ func structOf(n *types.Named) *types.Struct {
 	return s
 }
 
+// fields lists the fields of s that satisfy pred; the fields of embedded structs count as fields of s.
 func fields(s *types.Struct, pred func(*types.Var) bool) []*types.Var {
 	var out []*types.Var
-	for i := 0; i < s.NumFields(); i++ {
-		if pred(s.Field(i)) {
-			out = append(out, s.Field(i))
+	for _, f := range flatFields(s, 0) {
+		if pred(f) {
+			out = append(out, f)
 		}
+	}
+	return out
+}
+
+func flatFields(s *types.Struct, depth int) []*types.Var {
+	var out []*types.Var
+	for i := 0; i < s.NumFields(); i++ {
+		f := s.Field(i)
+		if es, ok := f.Type().Underlying().(*types.Struct); ok && f.Embedded() && depth < 3 {
+			out = append(out, flatFields(es, depth+1)...)
+			continue
+		}
+		out = append(out, f)
 	}
 	return out
 }
@@ -601,9 +615,42 @@ type counter struct {
 
 // cellKey: the canonical key of the address loaded by v, if v is a load from a local cell of the loop function.
 func (m *model) cellKey(v ssa.Value) (string, *ssa.UnOp) {
+	// a field of a copy of the whole bookkeeping struct (`n.state(...)` with a value receiver reads
+	// (*n).pending): the cell of that field, read when the copy was made
+	if f, ok := ssax.Unspill(v).(*ssa.Field); ok {
+		if whole, ok := m.resolve(f.X).(*ssa.UnOp); ok && whole.Op == token.MUL {
+			if a, ok := whole.X.(*ssa.Alloc); ok && a.Parent() == m.fnLoop && m.contained(a) {
+				if st, ok := f.X.Type().Underlying().(*types.Struct); ok {
+					return "&(" + m.key(a) + ")." + st.Field(f.Field).Name(), whole
+				}
+			}
+		}
+		return "", nil
+	}
 	u, ok := ssax.Unspill(v).(*ssa.UnOp)
 	if !ok || u.Op != token.MUL {
 		return "", nil
+	}
+	// a field of a spilled copy of the whole struct (value receiver / by-value parameter of a single-site helper)
+	if fa, ok := u.X.(*ssa.FieldAddr); ok {
+		if cp, ok := fa.X.(*ssa.Alloc); ok && cp.Parent() != m.fnLoop {
+			var whole ssa.Value
+			n := 0
+			for _, r := range *cp.Referrers() {
+				if st, ok := r.(*ssa.Store); ok && st.Addr == ssa.Value(cp) {
+					whole = st.Val
+					n++
+				}
+			}
+			if n == 1 {
+				if ld, ok := m.resolve(whole).(*ssa.UnOp); ok && ld.Op == token.MUL {
+					if a, ok := ld.X.(*ssa.Alloc); ok && a.Parent() == m.fnLoop && m.contained(a) {
+						_, f, _ := ssax.FieldAddrOf(fa)
+						return "&(" + m.key(a) + ")." + f.Name(), ld
+					}
+				}
+			}
+		}
 	}
 	k := m.key(u.X)
 	if strings.Contains(k, "alloc:") && strings.Contains(k, "@"+m.fnLoop.String()) && strings.HasPrefix(k, "&") {
@@ -923,8 +970,8 @@ func (m *model) key1(v ssa.Value) string {
 	case *ssa.Convert:
 		return "conv(" + m.key(x.X) + ")"
 	case *ssa.FieldAddr:
-		_, f, _ := ssax.FieldAddrOf(x)
-		return "&(" + m.key(x.X) + ")." + f.Name()
+		b, f, _ := ssax.FieldAddrOf(x)
+		return "&(" + m.key(b) + ")." + f.Name()
 	case *ssa.Field:
 		_, f, _ := ssax.FieldLoad(x)
 		return "(" + m.key(x.X) + ")." + f.Name()
@@ -1522,6 +1569,58 @@ func (m *model) mustPass(from *ssa.BasicBlock, inside func(*ssa.BasicBlock) bool
 // mustPassOrReturn is mustPass where leaving the function by return is allowed to skip the target.
 func (m *model) mustPassOrReturn(from *ssa.BasicBlock, inside func(*ssa.BasicBlock) bool, target ssa.Instruction) bool {
 	return m.mustPassX(from, inside, target, true)
+}
+
+// mustPassAny: every path from `from` that leaves the region executes one of the targets first (targets in
+// helpers count through their unconditional call chain, as in mustPass).
+func (m *model) mustPassAny(from *ssa.BasicBlock, inside func(*ssa.BasicBlock) bool, targets []ssa.Instruction) bool {
+	stop := map[*ssa.BasicBlock]bool{}
+	for _, t := range targets {
+		fn := t.Parent()
+		for fn != from.Parent() {
+			c, ok := m.site[fn]
+			if !ok || !m.mustPass(fn.Blocks[0], func(*ssa.BasicBlock) bool { return true }, t) {
+				t = nil
+				break
+			}
+			t = c
+			fn = c.Parent()
+		}
+		if t != nil {
+			stop[t.Block()] = true
+		}
+	}
+	if len(stop) == 0 {
+		return false
+	}
+	if stop[from] {
+		return true
+	}
+	seen := map[*ssa.BasicBlock]bool{from: true}
+	stack := []*ssa.BasicBlock{from}
+	for len(stack) > 0 {
+		x := stack[len(stack)-1]
+		stack = stack[:len(stack)-1]
+		if len(x.Succs) == 0 {
+			if _, isPanic := x.Instrs[len(x.Instrs)-1].(*ssa.Panic); !isPanic {
+				return false
+			}
+			continue
+		}
+		for _, s := range x.Succs {
+			if stop[s] {
+				continue
+			}
+			if !inside(s) {
+				return false
+			}
+			if !seen[s] {
+				seen[s] = true
+				stack = append(stack, s)
+			}
+		}
+	}
+	return true
 }
 
 func (m *model) mustPassX(from *ssa.BasicBlock, inside func(*ssa.BasicBlock) bool, target ssa.Instruction, retOK bool) bool {
